@@ -10,7 +10,7 @@ one() {
   if ! (cd $w && git apply --unsafe-paths --directory=$w $d 2>/dev/null || patch -s -p1 -d $w < $d >/dev/null 2>&1); then echo "$tag: PATCH DOES NOT APPLY"; rm -rf $w; return; fi
   cd /verif
   res=""
-  for i in 01 02 03 04 05 06 07 08 09 10 11 12 13 14 15 16 17 18 19 20; do
+  for i in ${PROPS:-01 02 03 04 05 06 07 08 09 10 11 12 13 14 15 16 17 18 19 20}; do
     timeout 300 /venv/bin/python -m wverif check C$i --root $w --no-write > $w/out_C$i.txt 2>&1
     rc=$?
     [ $rc -ne 0 ] && res="$res C$i=$rc"
